@@ -3,6 +3,7 @@
 mod absval;
 mod gen;
 mod jtree;
+mod ops_defs;
 mod ops_enc;
 mod ops_json;
 mod ops_time;
@@ -26,6 +27,7 @@ fn dispatch(vec: &J, out: &mut Out, wk: &mut Option<worker::Worker>) -> Result<(
         "zinc" => ops_zinc::run(vec).map(|e| out.emit(e)),
         "hayson" => ops_json::run(vec).map(|e| out.emit(e)),
         "enc" => ops_enc::run(vec).map(|e| out.emit(e)),
+        "defs" => ops_defs::run(vec, out),
         "time" => ops_time::run(vec, out),
         "filter" => ops_filter::run(vec, out, wk.get_or_insert_with(worker::Worker::new)),
         "dec" | "stab" => ops_total::run(vec, out, wk.get_or_insert_with(worker::Worker::new)),
@@ -79,6 +81,12 @@ fn main() {
                     }
                 }
                 "fuzz" => ops_total::rec_fuzz(&mut out, seed, n),
+                "defs" => {
+                    if let Err(e) = ops_defs::rec(&mut out, seed, n) {
+                        eprintln!("TOOL-ERROR: {e}");
+                        std::process::exit(2);
+                    }
+                }
                 "filterfuzz" => ops_filter::rec_fuzz(&mut out, seed, n),
                 "time" => {
                     let per_zone: usize = arg(&args, "--per-zone").and_then(|s| s.parse().ok()).unwrap_or(8);
